@@ -262,6 +262,20 @@ func (ci *ChunkInfo) getCidSort(rootCid, cid boson.Address) int {
 	return pyramid.cids[cid.String()].sort
 }
 
+// getCidSortOK is getCidSort that also reports whether cid is a data chunk of rootCid at all
+// (getCidSort answers position 0 for every address that is not: a manifest or intermediate
+// chunk, the root, or any chunk when the pyramid cannot be read).
+func (ci *ChunkInfo) getCidSortOK(rootCid, cid boson.Address) (int, bool) {
+	ci.cp.RLock()
+	defer ci.cp.RUnlock()
+	pyramid, err := ci.getPyramid(rootCid)
+	if err != nil {
+		return 0, false
+	}
+	v, ok := pyramid.cids[cid.String()]
+	return v.sort, ok
+}
+
 // func (cp *chunkPyramid) updateCidSort(rootCid, cid boson.Address, sort int) {
 //
 //	v, ok := cp.pyramid[rootCid.String()][cid.String()]
